@@ -1,8 +1,10 @@
 """C07 — a registration becomes usable only when every admission condition holds."""
 import ipaddress
 import itertools
+import sys
 
 from lib import gN, gbool, glist, gopt, hexs
+from props import c07_live
 
 HEADER = "From CJ Require Import Common.Base C06.Model C07.Model C07.Run.\n"
 PKG = "pkg/station/lib"
@@ -495,11 +497,17 @@ def run(ctx):
                        "factors (random slice in quick), multi-message histories (duplicates, re-registration after a "
                        "rejection) and hand-built incomplete registrations; a case is non-trivial if hash-distinct, "
                        "counted per outcome class")
-    ctx.coq_props(extra_dirs=["C06"])
+    ctx.coq_props(extra_dirs=["C06", "C18"])
     rc, out = ctx.coq_make(["C07/Examples.vo", "C07/Refuted.vo"])
     if rc != 0:
         ctx.broken("examples", "coq/C07/Examples.v (non-vacuity) or Refuted.v (witnesses of the open findings) no longer checks: %s" % out[-400:])
+    run_table(ctx)
+    # the liveness verdict through the real tester stack, over histories sharing one cache state
+    c07_live.run_live(ctx, sys.modules[__name__])
 
+
+def run_table(ctx):
+    """the decision table with an injected liveness tester (one bare verdict per case)"""
     cases = gen_cases(ctx)
     payload = [{"cfg": c["cfg"], "live": c["live"], "steps": c["steps"]} for c in cases]
     rc, out, res = ctx.go_inpkg(".", PKG, DRV, "^TestVerifC07Ingest$", payload, timeout=1500)
@@ -615,12 +623,13 @@ def oracle_msg(ctx, e, obs, m, cfg, live, info):
                      "but it was not announced" % d["fam"], dict(info, conditions=d["conds"]))
         if not d["admissible"] and d["phantom"] in ann:
             failing = [k for k, v in d["conds"].items() if not v]
-            ctx.fail("announced-although/" + "+".join(failing), "the IPv%d registration was announced although %s does not hold"
-                     % (d["fam"], failing), dict(info, conditions=d["conds"]))
+            origin = ("@" + d["verdict_origin"]) if ("not-live" in failing and d.get("verdict_origin")) else ""
+            ctx.fail("announced-although/" + "+".join(failing) + origin, "the IPv%d registration was announced although %s does not hold%s"
+                     % (d["fam"], failing, (" (liveness verdict: %s)" % d["verdict_origin"]) if origin else ""), dict(info, conditions=d["conds"]))
         if d["probe"] and d["phantom"] not in prb:
             ctx.fail("probe-missing/fam%d" % d["fam"], "a liveness probe was required but not sent", dict(info, conditions=d["conds"]))
         if not d["probe"] and d["phantom"] in prb:
-            ctx.fail("probe-not-needed/" + ("prescanned" if not d["needs_probe"] else "earlier-condition-failed"),
+            ctx.fail("probe-not-needed/" + (d.get("noprobe_why") or ("prescanned" if not d["needs_probe"] else "earlier-condition-failed")),
                      "a liveness probe was sent although none is required", dict(info, conditions=d["conds"]))
         if d["retry_after_rejection"] and all(v for k, v in d["conds"].items() if k != "fresh") and d["phantom"] not in ann:
             ctx.fail("readmission/ignored-after-rejection",
